@@ -648,8 +648,9 @@ impl Property for C03 {
         "exploration"
     }
     fn rule(&self) -> String {
-        "Seeded (configuration x operation history): schema (recursive generator or serde corpus type), codec (all six, with levels), \
-         block_size in {0, 1, ~1 value, ~3 values, 16000}, map/array target block size, 0-2 user metadata entries; 1-3 writer generations \
+        "Seeded (configuration x operation history): schema (recursive generator or serde corpus type, a third of the latter with the \
+         record fields in another order than the Rust type), codec (all six, with levels), \
+         block_size in {0, 1, ~1 value, ~3 values, 16000}, map/array target block size, 0-2 user metadata entries (keys also around the reserved avro. namespace); 1-3 writer generations \
          (fresh writer, then append_to on the surviving bytes with read_marker's marker) of 1-10 operations from {append_value, \
          append_value_ref, unvalidated_append_value(_ref), append_ser, extend, extend_from_slice, extend_ser, flush, add_user_metadata, \
          reset, and four kinds of failing append}, each generation finished by into_inner or by a real drop. One evaluation = one \
